@@ -21,6 +21,7 @@ type c18run struct {
 	h     *H
 	ok    bool
 	nonce uint64
+	text  string // text of the rejection ("" when accepted): part of the response
 }
 
 func c18caps() userCaps {
@@ -61,6 +62,7 @@ func c18exec(idx int, statePrefix, reqPrefix string) c18run {
 			verifrt.ProbeAttestation(reqPrefix+"m_message", reqPrefix+"m_attestation", statePrefix+"att", m.Message, m.Attestation, h.Att, 1)
 		}
 	}
+	r.text = errString(h.LastErr)
 	return r
 }
 
@@ -73,7 +75,7 @@ func c18handler(idx int) {
 	n := verifrt.Repeat()
 	for i := 0; i < n; i++ {
 		b2 := c18exec(idx, "", "")
-		same = verifrt.All(same, b1.ok == b2.ok, b1.nonce == b2.nonce, verifrt.SameObservations(b1.h.Env, b2.h.Env))
+		same = verifrt.All(same, b1.ok == b2.ok, b1.nonce == b2.nonce, b1.text == b2.text, verifrt.SameObservations(b1.h.Env, b2.h.Env))
 	}
 	verifrt.Cover("compared")
 	verifrt.Assert("C18/handler/outcome-independent-of-other-instances-and-of-repetition", same)
@@ -82,6 +84,45 @@ func c18handler(idx int) {
 func init() {
 	verifrt.Register("Harness_C18_VerifierIndependentOfEarlierVerifications", Harness_C18_VerifierIndependentOfEarlierVerifications)
 	verifrt.Register("Harness_C18_VerdictNotRetainedAcrossAttesterSets", Harness_C18_VerdictNotRetainedAcrossAttesterSets)
+	verifrt.Register("Harness_C18_VerifierSameVerdictAndTextEveryTime", Harness_C18_VerifierSameVerdictAndTextEveryTime)
+}
+
+func errString(e error) string {
+	if e == nil {
+		return ""
+	}
+	return e.Error()
+}
+
+// verifying the same (message, attestation, attester set, threshold) again gives the same verdict and
+// the same rejection text: nothing in the verifier depends on scheduling (goroutines spawned by the
+// code are run by the engine in every order; the native replay repeats the call), on map order or on
+// earlier calls.
+func Harness_C18_VerifierSameVerdictAndTextEveryTime() {
+	msg := verifrt.NondetBytesOrNil("m_message", 8)
+	att := verifrt.NondetBytesOrNil("m_attestation", 65*2+1)
+	n := 1 + verifrt.NondetChoice("n_att", 2)
+	var list []types.Attester
+	var names []string
+	for i := 0; i < n; i++ {
+		a := verifrt.NondetString("att"+string(rune('0'+i)), attCap)
+		if i > 0 {
+			verifrt.Assume(names[i-1] < a)
+		}
+		names = append(names, a)
+		list = append(list, types.Attester{Attester: a})
+	}
+	t := verifrt.NondetU32("threshold")
+	verifrt.Assume(verifrt.All(t >= 1, t <= uint32(n)))
+	e1 := errString(VerifyAttestationSignatures(msg, append([]byte{}, att...), list, t))
+	same := true
+	for i, k := 0, verifrt.Repeat(); i < k; i++ {
+		e2 := errString(VerifyAttestationSignatures(msg, append([]byte{}, att...), list, t))
+		same = verifrt.All(same, e1 == e2)
+	}
+	verifrt.ProbeAttestation("m_message", "m_attestation", "att", msg, att, names, 2)
+	verifrt.Cover("compared")
+	verifrt.Assert("C18/verifier/same-verdict-and-text-every-time", same)
 }
 
 // the replayable special case of the lemma below: an attestation by honest attester 1 is verified
@@ -169,3 +210,41 @@ func c18globals(idx int) {
 // instance after a different instance successfully executed transaction `before` in the same process
 func c18receiveAfter(before int) { receiveLemmaN("C03", false, 1, before) }
 func c18depositAfter(before int) { producerLemmaAfter(hDepositForBurn, "C08", false, before) }
+
+// c18concurrent: two independent instances (fresh keeper, fresh store) that hold the same state execute
+// the same transaction on two goroutines. The engine runs the two bodies one after the other and
+// records the package-level memory each reads and writes outside a lock; a write by one that the
+// other reads or writes is reported, and the native replay confirms it with the race detector (the
+// replay binary is built with -race for this assertion). Bound: what is compared is memory the
+// engine sees as package-level (variables of the executed packages and what their initialisers
+// allocated); races inside modelled callees (SDK store, codec) are outside the claim.
+func c18concurrent(idx int) {
+	mk := func() *H {
+		h := newH("")
+		if idx < numPrivileged {
+			h.setupAdminState(2)
+		} else {
+			h.setupUserState(1, c18caps())
+			h.assumeThresholdInvariant()
+		}
+		return h
+	}
+	h1, h2 := mk(), mk()
+	from := ""
+	if idx < numPrivileged {
+		from = nondetSubmitter()
+	}
+	body := func(h *H) func() {
+		return func() {
+			h.Env.BeginTx()
+			if idx < numPrivileged {
+				h.callAdmin(idx, from)
+			} else {
+				h.callUser(idx, c18caps())
+			}
+		}
+	}
+	verifrt.Parallel(body(h1), body(h2))
+	verifrt.Cover("ran")
+	verifrt.Assert("C18/handler/concurrent-instances-share-no-written-memory", !verifrt.Raced())
+}
